@@ -166,3 +166,22 @@ _R9 = {
 }
 for _k, _v in _R9.items():
     TEXTS[_k]["text"] += _v
+
+# clauses added after round 10 (blind-spot sweep): what the registry API must do, lock-step of the record counters
+_R10 = {
+    "C01": " Also: registry panics fire only for a duplicate id on insertion / a missing id elsewhere (R01.e polarity); records, next_ix and the index change in lock-step in every Store method (R01.g).",
+    "C02": " Also (R02.i): add_record and highlight_with perform their effect on every call.",
+    "C03": " Also (R03.l): add_record really adds the record on every call.",
+    "C04": " Also (R04.l): add_record really adds the record on every call.",
+    "C06": " Also (R06.h): set_limit really stores the limit on every call.",
+    "C07": " Also (R07.f): add_record really adds the record on every call.",
+    "C08": " Also (R08.g, region-wise): a pair of consecutive matches adds 0 to the transposition penalty when adjacent in order and at least 1 when there is a gap.",
+    "C09": " Also (R09.j): highlight_with really hands the markers to the store on every call.",
+    "C10": " Also (R10.b): records, next_ix and the index change by the same abstract amount (+1 or reset) on every path of every Store method, so `clear` really empties the store.",
+    "C12": " Also (R12.j): add_record really adds the record on every call.",
+    "C13": " Also (R13.i): add_record really adds the record on every call.",
+    "C14": " Also (R14.k): add_record really adds the record on every call.",
+    "C20": " Also (R20.j): add_record / highlight_with / set_limit perform their effect on every call; registry panics have the right polarity.",
+}
+for _k, _v in _R10.items():
+    TEXTS[_k]["text"] += _v
